@@ -17,7 +17,7 @@ T = 'types::poly::mono::MonoOrd>::cmp_lex'
 
 
 def sk(t):
-    return re.sub(r'#\d+\.\d+', '', show(t, -1000))
+    return re.sub(r'#(?:i\d+:)?\d+\.\d+', '', show(t, -1000))
 
 
 def _closure_ret(facts, owner, t):
